@@ -10,7 +10,15 @@ RUN = "^TestVerifC14$"
 NMAX = 8
 
 # statistical clauses (DESIGN.md section 5): flagged only beyond these margins
-DEAD_SHARE_MAX = 0.8      # picks of the always-failing backend / picks of the least-picked healthy one
+# picks of the always-failing backend / picks of the least-picked healthy one, flagged at >= the
+# value for (ready connections, latency of the failing backend in ms; healthy ones answer in 5 ms).
+# The picker's rand is seeded, so the ratio is a deterministic function of VERIF_SEED; measured on
+# the unchanged tree over seeds 1,2,3,7,12345 (18000 counted picks): n=3: 0.54-0.55 (5 ms) and
+# 0.83-0.86 (1 ms, the fast-failing backend has the lower load and wins most comparisons it takes
+# part in: inherent to P2C with three backends); n=5: 0.21 / 0.26-0.29; n=8: 0.07-0.09 / 0.10-0.11.
+# Thresholds sit far above these and below what a picker that cannot retry an unhealthy first
+# candidate away gives (n=3: 0.77-0.80 / 1.43-1.47; n=5: 0.74-0.77 / 1.05-1.10; n=8: 0.76-0.78 / 1.02-1.10).
+DEAD_SHARE_MAX = {(3, 5): 0.68, (3, 1): 1.1, (5, 5): 0.45, (5, 1): 0.6, (8, 5): 0.4, (8, 1): 0.5}
 MAX_GAP_MS = 5000         # longest time a connection stays unpicked under 1 kHz picks
 
 # order in which violated clauses name the disagreement
@@ -32,8 +40,9 @@ META = dict(
     note="Trusted: TLC, the Json module, the driver's projection (values saturated at 10^9), the virtual clock hook. The "
          "pair selection rand is re-seeded by the driver (in-package) for reproducibility. Not decided by the spec: "
          "which connection is picked among >= 3 (only that it is ready); 'chosen markedly less often' and 'about once "
-         "per second' for >= 3 connections are driver statistics with wide margins (dead share < 0.8 of the least "
-         "picked healthy one - P2C with 3 backends gives about 0.53 - and no connection unpicked for > 5 s). The EWMA "
+         "per second' for >= 3 connections are driver statistics with wide margins (n = 3, 5, 8, failing backend equally fast or faster than its "
+         "peers; its picks / those of the least picked healthy one, flagged at per-(n, latency) thresholds placed far above "
+         "the values measured on the conforming code, recorded in evidence; no connection unpicked for > 5 s). The EWMA "
          "weight enters only as an upper bound on the remaining distance (table for decay 10 s); one unit of slack for "
          "float truncation. Concurrent runs are validated at quiescence only (no per-step order). Measured and "
          "reported, not judged: a recovered backend regains its score slowly under fast traffic because increments "
@@ -161,9 +170,13 @@ def stats(ctx, binp, ops):
                 return
         p1 = st["phase1"]
         dead, healthy = p1["picks"][0], min(p1["picks"][1:])
-        if dead >= DEAD_SHARE_MAX * healthy:
-            ctx.disagree("C14:dead-backend-share", "n=%d: backend failing every call was picked %d times, the least picked healthy "
-                         "one %d times over %d picks (flagged at >= %.1f of it)" % (n, dead, healthy, p1["counted"], DEAD_SHARE_MAX),
+        lim = DEAD_SHARE_MAX[(n, st["dead_lat_ms"])]
+        ctx.notes.setdefault("dead_share_ratio", {})["n=%d,dead_lat=%dms" % (n, st["dead_lat_ms"])] = dict(
+            ratio=round(dead / max(healthy, 1), 3), flagged_at=lim)
+        if dead >= lim * healthy:
+            ctx.disagree("C14:dead-backend-share", "n=%d, failing backend answering in %d ms (healthy ones in 5 ms): it was picked %d times, "
+                         "the least picked healthy one %d times over %d picks: ratio %.2f (flagged at >= %.2f)"
+                         % (n, st["dead_lat_ms"], dead, healthy, p1["counted"], dead / max(healthy, 1), lim),
                          case=json.dumps(dict(mode="stats", seed=ctx.seed, ops=ops)), source="stats")
         if p1["succ"][0] > 500:
             ctx.disagree("C14:dead-backend-healthy", "n=%d: backend failing every call for %d picks still has score %d (> 500)"
